@@ -530,6 +530,7 @@ func checkC18(c *Ctx) {
 	for i, src := range c18RemovedSources {
 		rm := &ndjson{}
 		c18Removed(c, fmt.Sprintf("removed-%d", i), []byte(src), rm)
+		c18HandData(c, fmt.Sprintf("removed-%d", i), []byte(src), rm)
 		if rm.Len() > 0 {
 			items = append(items, traceItem{Key: fmt.Sprintf("removed-%d", i), Trace: rm.Bytes(), Events: rm.Len(), Replay: obj{"kind": "c18removed", "src": src}})
 		}
